@@ -332,8 +332,25 @@ def run_history(desc):
                     stocks.append(st_)
             else:
                 must_raise = True
-                how = s["how"] % 5
-                if how == 0 and len(tl) >= 2:  # array with permuted / other letters
+                how = s["how"] % 6
+                if how == 5:
+                    # a lifetime model whose dimensions differ from the stock's although the SHAPE agrees:
+                    # non-time dimensions in another order or replaced by another dimension of equal length
+                    cands = []
+                    rest = tl[1:]
+                    for perm in ([rest[::-1]] if len(rest) >= 2 and rest[::-1] != rest else []):
+                        if [len(items[l]) for l in perm] == [len(items[l]) for l in rest]:
+                            cands.append(["t"] + perm)
+                    for i, l in enumerate(rest):
+                        for o in allL:
+                            if o not in tl and len(items[o]) == len(items[l]):
+                                cands.append(["t"] + rest[:i] + [o] + rest[i + 1 :])
+                    if not cands:
+                        continue
+                    ml = cands[s["k"] % len(cands)]
+                    lm = fd.NormalLifetime(dims=build.dimset(U, ml), mean=2.0, std=1.0)
+                    call = lambda: fd.InflowDrivenDSM(dims=tds, lifetime_model=lm) if s["j"] % 2 else fd.StockDrivenDSM(dims=tds, lifetime_model=lm)
+                elif how == 0 and len(tl) >= 2:  # array with permuted / other letters
                     wrong = build.array(U, {"letters": tl[::-1], "mode": "coded", "tag": "y"}, cls=fd.StockArray)
                     call = lambda: fd.SimpleFlowDrivenStock(dims=tds, inflow=wrong)
                 elif how == 1 and len(tl) >= 2:  # time not first
